@@ -161,6 +161,7 @@ func (Prop) Plan(tier string) []lib.Workload {
 			{Name: "random", Cases: 6000, MinNontrivial: 3000, BatchTimeout: 120 * time.Minute},
 			{Name: "skewed", Cases: 6000, MinNontrivial: 3000, BatchTimeout: 120 * time.Minute},
 			{Name: "wire", Cases: 4000, MinNontrivial: 2000, BatchTimeout: 120 * time.Minute},
+			{Name: "churn", Cases: 8000, MinNontrivial: 4000, BatchTimeout: 120 * time.Minute},
 			{Name: "large", Cases: 300, MinNontrivial: 150, BatchTimeout: 120 * time.Minute},
 			{Name: "degenerate", Cases: len(degCases(tier)), MinNontrivial: 10, Batches: 8, BatchTimeout: 120 * time.Minute},
 		}
@@ -170,6 +171,7 @@ func (Prop) Plan(tier string) []lib.Workload {
 		{Name: "random", Cases: 500, MinNontrivial: 250},
 		{Name: "skewed", Cases: 500, MinNontrivial: 250},
 		{Name: "wire", Cases: 400, MinNontrivial: 200},
+		{Name: "churn", Cases: 600, MinNontrivial: 300},
 		{Name: "large", Cases: 6, MinNontrivial: 3},
 		{Name: "degenerate", Cases: len(degCases(tier)), MinNontrivial: 10, Batches: 6},
 	}
@@ -572,6 +574,8 @@ func (Prop) RunCase(c *lib.Case) {
 			rebuild(g, params{32, 256}, c.Rng)
 		}
 		runGenerated(c, r, g, allCombos)
+	case "churn":
+		runGenerated(c, r, genChurn(c.Rng), allCombos)
 	case "degenerate":
 		runDegenerate(c, r)
 	case "large":
